@@ -1,3 +1,4 @@
+\* c42
 SPECIFICATION Spec
 CONSTANTS
   Cand <- Cand4
@@ -17,6 +18,5 @@ INVARIANT Inv_W3
 INVARIANT Inv_W4
 INVARIANT Inv_Verdict
 INVARIANT Inv_LoopGraph
-INVARIANT Inv_ClosureAgrees
 PROPERTY Terminates
 CHECK_DEADLOCK FALSE
